@@ -1,0 +1,48 @@
+//go:build verif
+
+// Contracts for the fvc verification-condition generator in /verif (comment-only file).
+//
+// C15 - the two context locals of the package (fiber.Ctx.Locals is modelled by the ghosts locHas/locVal of
+// deps/mw_C17.spec: per context, boxed key -> boxed value):
+//   middlewareContextKey  -> the *Middleware that manages the session of this request (written by initialize);
+//                            Store.Get refuses to hand out a second Session object while it is set, Session.Save of
+//                            the managed Session is a no-op (the middleware saves after the handler)
+//   sessionIDContextKey   -> the id getSession generated for this request (so that a later getSession of the same
+//                            request arrives at the same id before any cookie exists)
+// The keys are boxed constants of unexported int-based types: a boxed value of such a type is determined by its
+// payload (Go interface equality), and code outside the package cannot build one - only this package writes them.
+
+package session
+
+//@ props C15
+
+//@ fn isMwKeyType(x int) bool = typeis(x, middlewareKey)
+//@ fn mwKey() int
+//@ smt (assert (and (isMwKeyType mwKey) (= (unboxI mwKey) 0)))
+//@ smt (assert (forall ((x Int)) (! (=> (and (isMwKeyType x) (= (unboxI x) 0)) (= x mwKey)) :pattern ((unboxI x)))))
+//@ fn isSidKeyType(x int) bool = typeis(x, sessionIDKey)
+//@ fn sidKey() int
+//@ smt (assert (and (isSidKeyType sidKey) (= (unboxI sidKey) 0)))
+//@ smt (assert (forall ((x Int)) (! (=> (and (isSidKeyType x) (= (unboxI x) 0)) (= x sidKey)) :pattern ((unboxI x)))))
+
+// c is managed by a session middleware / by middleware m
+//@ macro mwLoaded(c) = locHas[c][mwKey()] && typeis(locVal[c][mwKey()], *Middleware)
+//@ macro mwOf(c) = as(locVal[c][mwKey()], *Middleware)
+// the request of c already has a server-generated id (the local is only ever written by getSession, with a string;
+// the contract language cannot name the dynamic type `string` - typeis(x, string) does not resolve - so the macros
+// speak about the entry being set and about its string payload)
+//@ fn unboxStr(x int) string
+//@ smt (assert (forall ((x Int)) (! (= (unboxStr x) (unboxS x)) :pattern ((unboxStr x)))))
+//@ macro sidSet(c) = locHas[c][sidKey()]
+//@ macro sidStr(c) = unboxStr(locVal[c][sidKey()])
+// only the entry `key` of context c may differ
+//@ macro localsKeptBut(c, key) = forallI(o, forallI(k, o != c || k != key ==> locHas[o][k] == old(locHas[o][k]) && locVal[o][k] == old(locVal[o][k])))
+
+// no context refers to middleware object m (a pooled Middleware must not be reachable from a request)
+//@ macro unreferenced(m) = forallI(x, !(locHas[x][mwKey()] && typeis(locVal[x][mwKey()], *Middleware) && as(locVal[x][mwKey()], *Middleware) == m))
+
+// FromContext: the middleware registered on the context, nil if there is none.
+//@ func FromContext
+//@   pure
+//@   ensures registered-middleware: mwLoaded(c) ==> result == mwOf(c)
+//@   ensures none: !mwLoaded(c) ==> result == nil
